@@ -66,7 +66,7 @@ example : Spec.hyp wF = true := by decide +kernel
 example : (writeVtu id wF).bind readVtu = Spec.normalise wF := by decide +kernel
 example : (Spec.normalise wF).isSome = true := by decide +kernel
 
--- hypotheses of C13_vtu_arrays_roundtrip_partial are met by this data set
+-- hypotheses of C13_vtu_arrays_roundtrip are met by this data set
 example : (writeVtu id wF).isSome = true := by decide +kernel
 example : (∀ f ∈ wF.pf, ArrOk f.2) ∧ ArrOk (pointArray id wF) ∧ allCells wF.cells ≠ [] := by
   refine ⟨?_, ⟨by decide +kernel, by decide +kernel, by decide +kernel⟩, by decide⟩
@@ -75,10 +75,65 @@ example : (∀ f ∈ wF.pf, ArrOk f.2) ∧ ArrOk (pointArray id wF) ∧ allCells
   subst hf
   exact ⟨by decide +kernel, by decide +kernel, by decide +kernel⟩
 
+-- the full theorem applies to this data set (both hypotheses are decidable and hold)
+example : Spec.sizeOk wF = true := by decide +kernel
+example : ∃ file R, writeVtu id wF = some file ∧ Spec.normalise wF = some R ∧ readVtu file = some R :=
+  C13_vtu_roundtrip wF (by decide +kernel) (by decide +kernel)
+
+-- four blocks in mesh order QUAD (id 9), VERTEX (id 1, no cells), TRIANGLE (5), LINE (3), a vector cell field on
+-- all of them: inside `hyp`; read back in `np.unique` order LINE, TRIANGLE, QUAD, the empty block dropped
+def wMix : WFields :=
+  { dim := 2, ptype := "float64",
+    points := [[0, 0], [0x3FF0000000000000, 0], [0x3FF0000000000000, 0x3FF0000000000000], [0, 0x3FF0000000000000],
+               [0x4000000000000000, 0]],
+    conntype := "int32",
+    cells := [("QUAD", [[0, 1, 2, 3]]), ("VERTEX", []), ("TRIANGLE", [[1, 4, 2]]), ("LINE", [[0, 1], [1, 4]])],
+    pf := [("p", ⟨"float32", 5, [2, 2], (List.range 20).map (· + 0x3F800000)⟩), ("q", ⟨"uint64", 5, [], [0, 1, 2, 3, 0xFFFFFFFFFFFFFFFF]⟩)],
+    cf := [("c", "QUAD", ⟨"uint8", 1, [2], [7, 8]⟩), ("c", "TRIANGLE", ⟨"uint8", 1, [2], [9, 10]⟩),
+           ("c", "VERTEX", ⟨"uint8", 0, [2], []⟩), ("c", "LINE", ⟨"uint8", 2, [2], [1, 2, 3, 4]⟩)] }
+
+example : Spec.hyp wMix = true ∧ Spec.sizeOk wMix = true := by constructor <;> decide +kernel
+example : ((writeVtu id wMix).bind readVtu).map (fun R => (R.cells.map (·.1), R.cf.map (·.perType))) =
+    some (["LINE", "TRIANGLE", "QUAD"], [[("LINE", [1, 2, 3, 4]), ("TRIANGLE", [9, 10]), ("QUAD", [7, 8])]]) := by
+  decide +kernel
+
+-- a mesh without cells (one empty block) is inside `hyp`: the `uint64` empty arrays, header-only branch
+def wNoCells : WFields := { wF with cells := [("QUAD", [])], cf := [] }
+example : Spec.hyp wNoCells = true ∧ Spec.sizeOk wNoCells = true := by constructor <;> decide +kernel
+example : ((writeVtu id wNoCells).bind readVtu).map (·.cells) = some [] := by decide +kernel
+
+-- negation witnesses for `hyp` (each violates exactly one clause; the model read-back differs from `normalise`):
+-- two blocks of the same cell type are merged by the reader
+def wDup : WFields := { wF with cells := [("QUAD", [[0, 1, 2, 3]]), ("QUAD", [[1, 4, 2, 0]])], cf := [] }
+example : Spec.hyp wDup = false ∧ (writeVtu id wDup).bind readVtu ≠ Spec.normalise wDup := by
+  constructor <;> decide +kernel
+-- one cell field with different dtypes on two cell types: the model writes the second block's values with the
+-- item size of the first (900 → 132; numpy would upcast instead — outside the claim either way)
+def wDt : WFields :=
+  { wF with cf := [("c", "QUAD", ⟨"uint8", 1, [2], [7, 8]⟩), ("c", "TRIANGLE", ⟨"uint16", 1, [2], [900, 10]⟩)] }
+example : Spec.hyp wDt = false ∧ (writeVtu id wDt).bind readVtu ≠ Spec.normalise wDt := by
+  constructor <;> decide +kernel
+
+-- `np.unique` order on a concrete types array
+example : uniqueTypes [9, 9, 5, 12, 5, 3] = [3, 5, 9, 12] := by decide
+
 -- CSV: hypothesis satisfiable; a token containing the delimiter does not survive (negation witness)
 example : csvHyp [[116], [120, 49]] [[[48, 46, 53], [49]], [[49, 46, 53], [45, 49]]] = true := by decide
 example : csvRead (csvWrite [[97]] [[[49, 44, 50]]]) ≠ some ([[97]], [[[49, 44, 50]]]) := by decide
 -- a single empty string cell makes the line vanish
 example : csvRead (csvWrite [[97]] [[[]], [[98]]]) = some ([[97]], [[[98]]]) := by decide
+
+-- the hypotheses of C13_csv_roundtrip_iff are satisfiable, and both sides of the equivalence occur:
+-- a delimiter inside a cell token (right side false) ⇒ the table is not read back
+example : csvRead (csvWrite [[97]] [[[49, 44, 50]]]) ≠ some ([[97]], [[[49, 44, 50]]]) := by
+  intro h
+  have := (C13_csv_roundtrip_iff [[97]] [[[49, 44, 50]]] (by decide) (by decide) (by decide)).mp h
+  revert this
+  decide
+-- no delimiter anywhere (right side true) ⇒ read back
+example : csvRead (csvWrite [[116], [120, 49]] [[[48, 46, 53], [49]]]) = some ([[116], [120, 49]], [[[48, 46, 53], [49]]]) :=
+  (C13_csv_roundtrip_iff [[116], [120, 49]] [[[48, 46, 53], [49]]] (by decide) (by decide) (by decide)).mpr (by decide)
+-- a delimiter inside a NAME changes the header (two columns read, one written)
+example : (csvRead (csvWrite [[97, 44, 98]] [])).map (·.1) = some [[97], [98]] := by decide
 
 end Fc.W.Wit13
